@@ -240,6 +240,10 @@ impl Num {
         let g = BigNum::gcd(&self.up, &self.down);
         self.up /= &g;
         self.down /= &g;
+        if !self.down.is_pos() {
+            self.down.minus();
+            self.up.minus();
+        }
     }
 
     /// Make itself change the sign
